@@ -1125,6 +1125,7 @@ def fam_N(tier):
                     for nm in ("q0", "lq"):
                         yield (n_case, forest, pos, nm, True)
     yield from n_unbraced_cases()
+    yield from n_cross_function_cases()
     # use of a name after its scope closed must be rejected; struct fields / other function's names are not variables
     for src, expect, desc in N_EXTRA:
         yield {"fam": "N", "desc": desc, "expect": expect, "src": src, "why": desc, "units": [{"funcs": [], "entry": "f", "inputs": []}]}
@@ -1158,6 +1159,31 @@ def n_unbraced_cases():
         f = func("f", [("int", "a")], "int", body)
         yield {"fam": "N", "desc": f"unbraced-declaration;{name}", "expect": expect, "why": name, "prog": {"globals": [("int", "g0")]},
                "units": [{"funcs": [f], "entry": "f", "inputs": [({"a": v}, {"g0": 100}) for v in (0, 1, 3)]}]}
+
+
+def n_cross_function_cases():
+    """Names are per function: a parameter / local / loop variable may be named like a parameter / local / loop variable of ANOTHER
+    function of the module, declared before or after it; every function keeps its own."""
+    kinds = {
+        "param": lambda nm: ([("int", nm)], [], V(nm)),
+        "local": lambda nm: ([("int", "u0")], [("decl", "int", nm, B("+", V("u0"), lit(1)))], V(nm)),
+        "block-local": lambda nm: ([("int", "u0")], [("decl", "int", "r0", lit(0)), ("block", [("decl", "int", nm, B("+", V("u0"), lit(2))), ASG(V("r0"), V(nm))])], V("r0")),
+        "for-header": lambda nm: ([("int", "u0")], [("decl", "int", "r0", V("u0")), ("for", ("decl", "int", nm, lit(0)), B("<", V(nm), lit(3)), ("pre", "++", nm), ("block", [ASG(V("r0"), B("+", V("r0"), V(nm)))]))], V("r0")),
+    }
+    for k1 in kinds:
+        for k2 in kinds:
+            for order in ("helper-first", "helper-last"):
+                p1, b1, r1 = kinds[k1]("nm")
+                p2, b2, r2 = kinds[k2]("nm")
+                helper = func("hlp", p1, "int", b1 + [("ret", B("*", r1, lit(10)))], export=False)
+                arg = V("a")
+                f = func("f", [("int", "a")] + [q for q in p2 if q[1] != "a"], "int", b2 + [("ret", B("+", B("*", r2, lit(1000)), ("call", "hlp", [arg])))])
+                funcs = [helper, f] if order == "helper-first" else [f, helper]
+                args = {"a": 3}
+                for t_, n_ in f["params"]:
+                    args.setdefault(n_, 5)
+                yield {"fam": "N", "desc": f"same-name-in-two-functions;{k1}-and-{k2};{order}", "expect": "accept", "why": "names of different functions do not meet",
+                       "units": [{"funcs": funcs, "entry": "f", "inputs": [(args, {})]}]}
 
 
 N_EXTRA = [
@@ -1267,6 +1293,23 @@ def x_bounds_cases(tier):
                        "why": f"row {c} of float{n}x{n}", "units": [{"funcs": [], "entry": "f", "inputs": []}]}
 
 
+def x_huge_constant_cases(tier):
+    """Constants far outside any dimension - around the 32-bit edges and beyond - in every spelling, on an array, a vector, a matrix."""
+    consts = [2 ** 31 - 1, 2 ** 31, 2 ** 32 - 1, 2 ** 32, 2 ** 32 + 1, 2 ** 32 + 2, 2 ** 33 + 1, 2 ** 64, 2 ** 64 + 1, 10 ** 12, -(2 ** 31), -(2 ** 31) - 1, -(2 ** 32), -(2 ** 32) + 1, -(2 ** 32) - 1]
+    targets = [("array", "int[4] g;\n", "g[{c}]", "int", "0"), ("array2-inner", "int[2][3] g;\n", "g[1][{c}]", "int", "0"), ("array2-outer", "int[2][3] g;\n", "g[{c}][1]", "int", "0"),
+               ("vector", "float4 g;\n", "g[{c}]", "float", "0.0"), ("matrix-row", "float3x3 g;\n", "g[{c}][0]", "float", "0.0"), ("matrix-col", "float3x3 g;\n", "g[0][{c}]", "float", "0.0")]
+    for c in consts:
+        spellings = [("dec", str(c))] + ([("hex", hex(c)), ("oct", "0" + oct(c)[2:])] if c >= 0 else [])
+        for base, text in spellings:
+            for name, decl, chain, et, zero in targets:
+                for rw in ("read", "write"):
+                    ch = chain.format(c=text)
+                    body = f"return {ch};" if rw == "read" else f"{ch} = {zero}; return {zero};"
+                    yield {"fam": "X", "expect": "reject", "src": decl + f"export function f(int i) -> {et} {{ {body} }}\n",
+                           "desc": f"bounds;huge-constant;{name};{'negative' if c < 0 else 'positive'};{base};{rw}", "why": f"constant {text} is outside every dimension",
+                           "units": [{"funcs": [], "entry": "f", "inputs": []}]}
+
+
 def x_nested_bounds_cases(tier):
     """Index chains that run THROUGH an array into its vector / matrix elements, through a struct field, through an array of
     structs: every position of the chain gets every constant around its range, the other positions are 0 or dynamic."""
@@ -1372,6 +1415,7 @@ def x_mask_cases(tier):
 def fam_X(tier):
     yield from x_bounds_cases(tier)
     yield from x_nested_bounds_cases(tier)
+    yield from x_huge_constant_cases(tier)
     yield from x_indextype_cases(tier)
     yield from x_mask_cases(tier)
 
@@ -2413,6 +2457,11 @@ W_OUTSIDE = [
     ("store-int-literal-to-uint-parameter", "export function f(uint u) -> uint { u = 7; return u / 2; }"),
     ("store-negative-literal-to-uint-parameter", "export function f(uint u) -> uint { u = -7; return u / 2; }"),
     ("int-literal-operand-of-float", "export function f(float x) -> float { return x + 1; }"),
+] + [
+    (f"uint-constant;{text};{how}", f"export function f(uint u) -> uint {{ {body} }}")
+    for text in ("0", "2147483647", "2147483648", "2147483649", "4294967295", "4294967296", "0x80000000", "0xFFFFFFFF")
+    for how, body in (("operand", f"return u + uint({text});"), ("returned", f"return uint({text});"), ("compared", f"return u < uint({text});"), ("divided", f"return uint({text}) / (u + 1);"))
+] + [
     ("float-literal-operand-of-int", "export function f(int a) -> float { return a + 1.5; }"),
     # a function with a result whose body never returns, alone / after / before functions that do return
     ("no-return;alone", "export function f(int a) -> int { a = a + 1; }"),
